@@ -35,7 +35,10 @@ class Ctx:
         if rid in self.rules:
             raise AnalysisError(f'rule id {rid} declared twice')
         self.rules[rid] = {'text': text, 'style': style, 'n': 0, 'bad': 0, 'constructs': set()}
-        self.floors[rid] = floor
+        # The floor guards against a rule that silently matches (almost) nothing; it is not meant to pin the exact number of
+        # instances.  Behaviour-preserving refactorings (a helper extracted from 17 identical expressions, two sibling functions
+        # merged) legitimately lower the count, so only 60% of the hand-confirmed number is demanded.
+        self.floors[rid] = floor if floor <= 3 else max(3, (floor * 3) // 5)
 
     def ob(self, rid: str, key: str, ok: bool, msg: str = '', file: str = '', line: int = 0,
            construct: Optional[str] = None, detail: Optional[dict] = None):
